@@ -137,3 +137,61 @@ Proof.
   intros H k _. unfold dget. destruct (PositiveMap.find (Z.to_pos (k + 1)) d) as [b|] eqn:E; [|apply zblk_length].
   apply PositiveMap.elements_correct in E. rewrite forallb_forall in H. specialize (H _ E). cbn [snd] in H. apply Nat.eqb_eq in H. exact H.
 Qed.
+
+(** * the mount side: from the moment the boot sector has been written, the flag is there — whatever else of the marking has reached the
+    device.  On FAT12 (no FAT[1] mark, nothing flushed before) that is from the FIRST write on. *)
+Lemma newest_skip l1 l2 a : Forall (fun w => ~ (fst w <= a < fst w + lenZ (snd w))) l1 -> newest (l1 ++ l2) a = newest l2 a.
+Proof.
+  induction l1 as [|[off data] r IH]; intros H; [reflexivity|]. inversion H as [|? ? Hn Hr]; subst. cbn [fst snd] in Hn.
+  cbn [app newest]. replace ((off <=? a) && (a <? off + lenZ data)) with false by lia. apply IH. exact Hr.
+Qed.
+Theorem mount_bracket s s' :
+  dev_ok (s_dev s) -> hdr_wf (s_h s) -> 0 <= BS_Reserved1 (s_h s) < 256 -> 512 <= s_dsize s ->
+  512 <= fat_start s -> 0 <= fat_bytes s -> (ft s = Gen.FAT_TYPE_FAT32 -> 512 <= BPB_BkBootSec (s_h s) * bps s) ->
+  mark_dirty s = Ok s' ->
+  exists l, s_log s' = l ++ s_log s /\ s_dev s' = apply_log l (s_dev s) /\
+    forall later earlier, l = later ++ earlier ->
+      (ft s = Gen.FAT_TYPE_FAT12 -> earlier <> [] -> flagged (apply_log earlier (s_dev s)) (s_dsize s)) /\
+      (In (0, ser_hdr (s_h s')) earlier -> flagged (apply_log earlier (s_dev s)) (s_dsize s)).
+Proof.
+  intros Hd Hwf Hr Hsz Hfs Hfb Hbk Hm. pose proof (mark_dirty_shape _ _ Hm) as ([WL WD] & Hh' & _). cbv zeta in WL, WD, Hh'.
+  set (h' := set_reserved1 (s_h s) (Z.lor (BS_Reserved1 (s_h s)) Gen.FAT_DIRTY_BIT_MASK)) in *.
+  set (bk := BPB_BkBootSec (s_h s) * bps s) in *.
+  set (fatpart := match shutdown_mask (ft s) with Some _ => fatW (fat_start s) (fat_bytes s) _ 0 (Z.to_nat (BPB_NumFATs (s_h s))) | None => [] end) in *.
+  eexists. split; [exact WL|]. split; [exact WD|]. intros later earlier Hsplit.
+  assert (Hwf' : hdr_wf h') by (apply set_reserved1_wf; [exact Hwf|apply lor1_byte; exact Hr]).
+  assert (Hser : lenZ (ser_hdr h') <= 510) by (rewrite (ser_hdr_length _ Hwf'); destruct (is32hdr h'); lia).
+  assert (Hflag : flag_set h' = true).
+  { destruct (mark_dirty_marks _ _ Hm ltac:(lia)) as [Hf _]. rewrite Hh' in Hf. exact Hf. }
+  assert (Hfat_above : Forall (fun w => 512 <= fst w) fatpart).
+  { assert (forall b n i, 0 <= i -> Forall (fun w => 512 <= fst w) (fatW (fat_start s) (fat_bytes s) b i n)) as Hgen.
+    { intros b. induction n as [|k IH]; intros i Hi; cbn [fatW]; [constructor|]. apply Forall_app. split; [apply IH; lia|]. constructor; [cbn [fst]; nia|constructor]. }
+    unfold fatpart. destruct (shutdown_mask (ft s)); [|constructor]. apply Hgen. lia. }
+  set (bkpart := if ft s =? Gen.FAT_TYPE_FAT32 then [(510 + bk, [85; 170]); (bk, ser_hdr h')] else []).
+  assert (Hl : bpbW h' (ft s =? Gen.FAT_TYPE_FAT32) bk ++ fatpart = (bkpart ++ [(510, [85; 170])]) ++ (0, ser_hdr h') :: fatpart).
+  { unfold bpbW. fold bkpart. rewrite <- !app_assoc. reflexivity. }
+  assert (Hbk_above : Forall (fun w : Z * list Z => 510 <= fst w) (bkpart ++ [(510, [85; 170])])).
+  { apply Forall_app. split; [|repeat constructor; cbn [fst]; lia]. unfold bkpart. destruct (ft s =? Gen.FAT_TYPE_FAT32) eqn:E32; [|constructor].
+    assert (E : ft s = Gen.FAT_TYPE_FAT32) by lia. specialize (Hbk E). fold bk in Hbk. repeat constructor; cbn [fst]; lia. }
+  (* the core: [earlier = post ++ (0, hdr') :: fatpart] with [post] above byte 510 *)
+  assert (Hcore : forall post, Forall (fun w : Z * list Z => 510 <= fst w) post -> flagged (apply_log (post ++ (0, ser_hdr h') :: fatpart) (s_dev s)) (s_dsize s)).
+  { intros post Hpost. unfold flagged.
+    assert (Hpos : Forall (fun w => 0 <= fst w) (post ++ (0, ser_hdr h') :: fatpart)).
+    { apply Forall_app. split; [eapply Forall_impl; [|exact Hpost]; intros w Hw; cbv beta in Hw; lia|].
+      constructor; [cbn [fst]; lia|eapply Forall_impl; [|exact Hfat_above]; intros w Hw; cbv beta in Hw; lia]. }
+    rewrite (dread_prefix _ _ 0 512 (ser_hdr h')); [rewrite parse_ser_hdr by exact Hwf'; exact Hflag|apply apply_log_ok; assumption|lia|unfold lenZ in Hser; lia|lia|].
+    intros i Hi. rewrite dbyte_apply_log by (try assumption; lia). rewrite newest_skip.
+    - cbn [newest]. unfold lenZ in *. replace ((0 <=? 0 + Z.of_nat i) && (0 + Z.of_nat i <? 0 + Z.of_nat (length (ser_hdr h')))) with true by lia.
+      unfold nthZ. f_equal. lia.
+    - eapply Forall_impl; [|exact Hpost]. intros w Hw. cbv beta in Hw. unfold lenZ in *. lia. }
+  rewrite Hl in Hsplit. symmetry in Hsplit. destruct (split_cases _ _ _ _ _ Hsplit) as [(pre & Hpre)|(post & Hpost & Hearlier)].
+  - (* only FAT copies so far *)
+    split.
+    + intros E12 Hne. exfalso. unfold fatpart in Hpre. replace (shutdown_mask (ft s)) with (@None Z) in Hpre by (rewrite E12; reflexivity).
+      destruct pre; destruct earlier; try discriminate. apply Hne. reflexivity.
+    + intros Hin. exfalso. rewrite Hpre in Hfat_above. apply Forall_app in Hfat_above. destruct Hfat_above as [_ Ha]. rewrite Forall_forall in Ha.
+      specialize (Ha _ Hin). cbn [fst] in Ha. lia.
+  - assert (Hp : Forall (fun w : Z * list Z => 510 <= fst w) post).
+    { rewrite <- Hpost in Hbk_above. apply Forall_app in Hbk_above. apply Hbk_above. }
+    rewrite Hearlier. split; intros; apply Hcore; exact Hp.
+Qed.
